@@ -57,10 +57,6 @@ CHECKS = {
     ),
     "C03": dict(
         verus=[dict(unit="framing"), dict(unit="drd_decode")],
-        kani=[dict(crate="nexrad-decode", files=["drd.rs", "w03.rs"], role="witness", tag="-witness", harnesses=[
-            dict(name="w03_two_frames", bounded="2 frames of the opaque types 3 and 15 in either order", what="two whole frames -> two messages in order, opaque placeholders for types without decoder, reader at the end"),
-            dict(name="w03_truncation", bounded="1 frame of type 3, cuts at 0/1/2403 body bytes; tails of 1/27 bytes", what="cut inside a body is an error; trailing fragment < header ignored"),
-        ])],
         trusted_base=STD_TRUST + [
             "reader model: Read::read_exact consumes exactly |buf| bytes or fails when fewer remain (std::io contract for &[u8]/Cursor)",
             "util::deserialize::<_, MessageHeader> reads 28 bytes at the ICD offsets (proved by Kani harness c10_layout_message_header)",
